@@ -702,6 +702,18 @@ func init() {
 		}
 		return tuple{m, iface{}}
 	}
+	externals["regexp.Match"] = func(fr *frame, a []value) value {
+		p, ok1 := a[0].(string)
+		b, ok2 := bytesOf(a[1])
+		if !ok1 || !ok2 {
+			panic(unsupported{"regexp.Match on symbolic operands"})
+		}
+		m, err := regexp.Match(p, b)
+		if err != nil {
+			return tuple{false, fr.i.nativeError(fr, err)}
+		}
+		return tuple{m, iface{}}
+	}
 	externals["(*regexp.Regexp).MatchString"] = func(fr *frame, a []value) value {
 		re := regexpOf(a[0])
 		switch s := a[1].(type) {
